@@ -2,9 +2,9 @@
 /verif/replay-crate (path dependencies on /repo/node) asserts the property on the concrete witness; the
 violation is reported only if that test FAILS (dev profile, and release profile where stated)."""
 import os, re, shutil, subprocess, time
-from framework import VERIF, NODE, TARGET, log
+from framework import VERIF, NODE, TARGET, OUT, ALT, log
 
-CRATE = VERIF + '/replay-crate'
+CRATE = (TARGET if ALT else VERIF) + '/replay-crate'
 
 CARGO_TOML = '''[package]
 name = "verif_replay"
@@ -31,6 +31,8 @@ assert_matches = "1.5.0"
 async-trait = "0.1"
 num-bigint = "0.4"
 prost = "0.12"
+prost-reflect = "0.12"
+prost-types = "0.12"
 time = "0.3"
 
 [profile.dev]
@@ -44,7 +46,7 @@ def ensure_crate():
     os.makedirs(CRATE + '/src', exist_ok=True)
     os.makedirs(CRATE + '/tests', exist_ok=True)
     os.makedirs(CRATE + '/.cargo', exist_ok=True)
-    with open(CRATE + '/Cargo.toml', 'w') as f: f.write(CARGO_TOML)
+    with open(CRATE + '/Cargo.toml', 'w') as f: f.write(CARGO_TOML.replace('/repo/node', NODE))
     with open(CRATE + '/src/lib.rs', 'w') as f: f.write('// replay support crate (generated tests live in tests/)\n')
     with open(CRATE + '/.cargo/config.toml', 'w') as f: f.write('[net]\noffline = true\n')
     shutil.copy(NODE + '/Cargo.lock', CRATE + '/Cargo.lock')
@@ -53,8 +55,8 @@ def ensure_crate():
 def run_replay(name, rust_src, release=False, timeout=1500, rustflags=None):
     """returns dict(reproduced: bool|None, path, output). reproduced=True iff the generated test fails."""
     ensure_crate()
-    os.makedirs(VERIF + '/replay', exist_ok=True)
-    keep = f'{VERIF}/replay/{name}.rs'
+    os.makedirs(OUT + '/replay', exist_ok=True)
+    keep = f'{OUT}/replay/{name}.rs'
     with open(keep, 'w') as f: f.write(rust_src)
     # only this test in the crate: stale generated tests are removed
     for fn in os.listdir(CRATE + '/tests'):
